@@ -22,6 +22,16 @@ use walkdir::DirEntry;
 use crate::config::Config;
 use crate::errors::Result;
 
+/// Does the path end in `.` or `..` (or is it `/`)?
+/// `Path::components()` drops a trailing `.`, so look at the raw bytes.
+pub fn names_contents(source: &Path) -> bool {
+    use std::os::unix::ffi::OsStrExt;
+    let raw = source.as_os_str().as_bytes();
+    let end = raw.iter().rposition(|c| *c != b'/').map_or(0, |p| p + 1);
+    let name = raw[..end].rsplit(|c| *c == b'/').next().unwrap_or(b"");
+    matches!(name, b"" | b"." | b"..")
+}
+
 /// Parse a git ignore file.
 pub fn parse_ignore(source: &Path, config: &Config) -> Result<Option<Gitignore>> {
     let gitignore = if config.gitignore {
